@@ -186,7 +186,7 @@ pub fn run(tier: Tier) -> Report {
         rep.acc.merge(acc);
         // (a) lattice product
         let total = al * al * al;
-        let acc = par_chunks(total, 1 << 15, |acc, lo, hi| {
+        let acc = par_chunks_varied(total, 1 << 15, |acc, lo, hi| {
             let px: Vec<[f32; 3]> = (lo..hi)
                 .map(|i| [alpha[(i / (al * al)) as usize], alpha[((i / al) % al) as usize], alpha[(i % al) as usize]])
                 .collect();
@@ -197,7 +197,7 @@ pub fn run(tier: Tier) -> Report {
         // (b) rounding edges of every code
         let edges = edge_pixels(c);
         edge_total += edges.len() as u64;
-        let acc = par_chunks(edges.len() as u64, 1 << 15, |acc, lo, hi| {
+        let acc = par_chunks_varied(edges.len() as u64, 1 << 15, |acc, lo, hi| {
             check_batch(acc, c, "rounding-edge", base + lo, &edges[lo as usize..hi as usize]);
             if lo == 0 && c.n == 10 && c.m == yuvxyb::MatrixCoefficients::BT709 && !c.full {
                 let i = edges.len().min(hi as usize) / 2;
